@@ -400,3 +400,19 @@ Section Thms.
   Qed.
 
 End Thms.
+
+(* C06: a closer that does not match the innermost open bracket is rejected,
+   unless one of the two is the tolerant '>' *)
+Lemma mismatch_rejected (T : Type) (ty : T -> N) t r expected st acc :
+  memN (ty t) end_balanced_tokens = true -> ty t <> expected -> ty t <> GT -> expected <> GT ->
+  consume ty (expected :: st) acc (t :: r) = ErrUnexpected (ty t).
+Proof.
+  intros Hc H1 H2 H3. cbn [consume]. rewrite Hc.
+  destruct (N.eqb_spec (ty t) expected); [contradiction|].
+  destruct (N.eqb_spec (ty t) GT); [contradiction|].
+  destruct (N.eqb_spec expected GT); [contradiction|]. reflexivity.
+Qed.
+
+(* ... and running out of input inside a group is an error, never a value *)
+Lemma consume_eof (T : Type) (ty : T -> N) stack acc : consume ty stack acc [] = ErrEOF.
+Proof. reflexivity. Qed.
